@@ -25,7 +25,21 @@ def _run(cmd, timeout, env=None):
         return -9, so, se, time.time() - t
 
 
+TRANSIENT = ("NO_MESSAGE", "WORKER_DIED", "CH_ERROR")
+
+
 def run_job(job):
+    """one worker process per job; an outcome that says nothing about the code (the analysis produced no message, the worker died) is tried once more
+    before it is reported as a harness error — the first attempt is kept in the verdict"""
+    v = _run_job_once(job)
+    if v.get("state") in TRANSIENT and not job["twin"]:
+        first = {"state": v.get("state"), "detail": (v.get("detail") or "")[-500:]}
+        v = _run_job_once(job)
+        v["retried_after"] = first
+    return v
+
+
+def _run_job_once(job):
     env = dict(os.environ)
     env["PYTHONHASHSEED"] = "0"
     env["PYTHONDONTWRITEBYTECODE"] = "1"
